@@ -620,6 +620,14 @@ def select_true(ctx: Ctx, m: Arr):
             [[sel(t), sel(u)]],
         )
     )
+    # counting (lemma L8, Skolemised; opt-in per contract, like ctx.row_hints): either every position is selected
+    # (K = n, sel the identity) or some position is not
+    wn = T.fresh_int("wsel")
+    if getattr(ctx, "select_count_fact", False): ctx.assume(
+        z3.Or(z3.And(K == T.tz(n), T.ForAll([t], z3.Implies(z3.And(0 <= t, t < K), sel(t) == t), [sel(t)])),
+              z3.And(0 <= wn, T.lt(wn, n), z3.Not(T.tz(m.fn(wn))))),
+        trusted="lemma:L8 pigeonhole (n distinct values in 0..n-1 are exactly 0..n-1; fewer unique rows than rows => a repeated row)",
+    )
     m.ghost[key] = (K, sel, rk)
     ctx.log_ghost("select", (K, sel, rk))
     return m.ghost[key]
@@ -1774,6 +1782,39 @@ def reshape(it, a: Arr, shape, order="C"):
         if isinstance(c, int) and c == 1 and isinstance(a_c, int) and a_c == 1:
             ctx.raise_unless(T.eq(r, a_r), "ValueError", "cannot reshape")
             return Arr((a_r, 1), lambda i, j, f=a.fn: f(i, 0), a.dtype, base=a)
+    m1 = lambda v: isinstance(v, int) and v == -1
+    one = lambda v: isinstance(v, int) and v == 1
+    # --- the forms that keep the last axis and merge / insert leading axes (Khatri-Rao by broadcasting)
+    if a.ndim in (2, 3) and len(shape) in (2, 3) and same_extent(ctx, shape[-1], a.shape[-1]) if not m1(shape[-1]) else False:
+        R_ = a.shape[-1]
+        src = a
+        ctx.trusted.add("numpy:reshape(insert / merge leading axes, last axis kept; C and F order)")
+        if any(m1(v) for v in shape):
+            # numpy cannot infer the -1 extent of an array without columns
+            ctx.raise_unless(T.ge(R_, 1), "ValueError", "cannot reshape array of size 0 into a shape with -1")
+        if a.ndim == 2 and len(shape) == 3 and m1(shape[0]) and one(shape[1]) and order == "C":
+            # (I, R) -> (I, 1, R), row-major: entry (i, 0, r) is (i, r)
+            return Arr((a.shape[0], 1, R_), lambda i, j, r, f=src.fn: f(i, r), a.dtype, base=a)
+        if a.ndim == 2 and len(shape) == 3 and one(shape[0]) and m1(shape[1]):
+            # (I, R) -> (1, I, R), either order (a leading singleton axis changes neither flattening)
+            if order in ("C", "F"):
+                return Arr((1, a.shape[0], R_), lambda z, q, r, f=src.fn: f(q, r), a.dtype, base=a)
+        if a.ndim == 3 and len(shape) == 3 and one(shape[0]) and m1(shape[1]) and order == "F":
+            # (A, B, R) -> (1, A*B, R), column-major: q = i + A*j
+            A_, B_ = a.shape[0], a.shape[1]
+            return Arr((1, T.mul(A_, B_), R_), lambda z, q, r, f=src.fn, A_=A_: f(T.tz(q) % T.tz(A_), T.tz(q) / T.tz(A_), r), a.dtype, base=a)
+        if a.ndim == 3 and len(shape) == 2 and m1(shape[0]) and order == "F":
+            A_, B_ = a.shape[0], a.shape[1]
+            return Arr((T.mul(A_, B_), R_), lambda q, r, f=src.fn, A_=A_: f(T.tz(q) % T.tz(A_), T.tz(q) / T.tz(A_), r), a.dtype, base=a)
+        if a.ndim == 3 and len(shape) == 3 and one(shape[0]) and m1(shape[1]) and order == "C":
+            # row-major merge of the two leading axes: q = i*B + j
+            A_, B_ = a.shape[0], a.shape[1]
+            return Arr((1, T.mul(A_, B_), R_), lambda z, q, r, f=src.fn, B_=B_: f(T.tz(q) / T.tz(B_), T.tz(q) % T.tz(B_), r), a.dtype, base=a)
+        if a.ndim == 3 and len(shape) == 2 and m1(shape[0]) and order == "C":
+            A_, B_ = a.shape[0], a.shape[1]
+            return Arr((T.mul(A_, B_), R_), lambda q, r, f=src.fn, B_=B_: f(T.tz(q) / T.tz(B_), T.tz(q) % T.tz(B_), r), a.dtype, base=a)
+        if a.ndim == 2 and len(shape) == 2 and m1(shape[0]):
+            return Arr((a.shape[0], R_), lambda q, r, f=src.fn: f(q, r), a.dtype, base=a)
     raise PathAbort("reshape form", ctx.cur_line)
 
 
